@@ -65,6 +65,9 @@
 (declare-fun Commits (Iface Int Iface Str) Bool)
 ;; spec CommitteeOf (Iface Iface Int Int) Slice_S_interfaces_CommitteeMember : []interfaces.CommitteeMember
 (declare-fun CommitteeOf (Iface Iface Int Int) Slice_S_interfaces_CommitteeMember)
+; (C03 completeness hypothesis) the consumer's Membership answers the committee request for a block proof without error
+;; spec CommitteeKnown (Iface Iface Int Int) Bool
+(declare-fun CommitteeKnown (Iface Iface Int Int) Bool)
 ;; spec SeedOf (Str) Int
 (declare-fun SeedOf (Str) Int)
 ;; spec SeedBytes (Int) Str
